@@ -473,7 +473,9 @@ fn search_case<S: Ora, C: Cv<S>>(t: &mut Tape, cx: &mut Cx) -> CaseResult {
         let h: S = S::q(1, t.pick(&[2i64, 4, 8, 16]));
         let coarse: Vec<(S, P3<S>)> = coarse_t.iter().map(|&u| (u, cv.eval(u))).collect();
         sample!(cx, "{} {} controls={:?} p={:?} coarse={:?} h={:?} eps={:?}", S::NAME, C::NAME, cp, p, coarse_t, h, eps);
-        let (tt, pt) = cv.search(p, coarse, h, eps);
+        let shape = t.below(4);
+        cx.label(["coarse-iter-exact-hint", "coarse-iter-filtered", "coarse-iter-from_fn", "coarse-iter-reversed"][shape]);
+        let (tt, pt) = cv.search(p, coarse, h, eps, shape);
         (tt, pt, coarse_t, if m == 0 { "direct,empty-coarse" } else { "direct" })
     };
     cx.label(label);
